@@ -4,8 +4,10 @@
    HBegin/HStart/... mirror scheduler.go:258-300), Agent/Run.v.  Proofs: Sched/ProofsStop.v, Agent/RunProofs.v.
    Examples: Sched/Examples2.v.  Tie to the code: tools/props/C04.py (power-set trace validation of the real scheduler
    incl. stop requests at every visible event index, every subset of handlers).
-   Premises: donech c = true (Schedule is given a done channel, as the agent always does), norepeat c (no repeatPolicy
-   step); C04_finished_iff / C04_failed_iff are stated for runs without DAG timeout (a timed-out run is labelled failed
+   Premises: donech c = true (Schedule is given a done channel, as the agent always does; WITHOUT one the statement
+   "finished means ran" is false in the model AND on the real scheduler - C04_done_nil_finished_means_ran_refuted below,
+   findings/C04-done-nil-finished-after-failure.json, candidate fix fixes/F-sched-done-nil-finished.diff), norepeat c
+   (no repeatPolicy step); C04_finished_iff / C04_failed_iff are stated for runs without DAG timeout (a timed-out run is labelled failed
    by decision, DESIGN.md section 6; C05).  Node teardown (log flush) is modelled as infallible. *)
 From Coq Require Import List.
 Import ListNotations.
@@ -114,3 +116,14 @@ Example C04_committed_step_canceled_repaired :
     canceled s = true /\ st (nd s 0) = NCancel /\ att (nd s 0) = 0 /\ dry (one_step 1 false) = false /\
     overall (one_step 1 false) s = OCancel /\ hstarts f5c_exec = [HCancel; HExit].
 Proof. exact f5c_repaired. Qed.
+
+(* (4) Why donech c = true is a premise: Schedule called without a done channel; the command fails on its own after the
+   stop flag is set and before the Signal pass reaches its node; the worker records the error and falls through to the
+   final relabelling running -> finished.  The step is reported finished although its only attempt failed - the
+   conclusion of C04_finished_means_ran is false in this reachable state.  Reproduced on the real scheduler (stream
+   `failinstop` of the driver; known finding C04-done-nil-finished-after-failure). *)
+Example C04_done_nil_finished_means_ran_refuted :
+  donech one_step_nodone = false /\ norepeat one_step_nodone /\ dry one_step_nodone = false /\
+  exists s, Reach one_step_nodone s /\ canceled s = true /\ lasterr s = true /\ sigq s = [] /\
+    st (nd s 0) = NSuccess /\ outs (nd s 0) = [false].
+Proof. exact done_nil_finished_after_failure. Qed.
